@@ -17,10 +17,10 @@ describe = X.describe
 
 RULE = ("programs of 3-11 nodes with 1-4 effects of every kind (Effect::new, RenderEffect, watch +-immediate, "
         "Effect::new_isomorphic; a separate ImmediateEffect stream that is checked by the oracle only) over signals of every "
-        "flavour and memos; about a third of the effects write signals (never one that an effect of smaller-or-equal index may "
+        "flavour, memos (equality / always-changed / parity compare), derived signals and wrappers; about a third of the effects write signals (never one that an effect of smaller-or-equal index may "
         "read, so every history reaches idle; a small 'selfwrite' family of guarded self-feeding effects is kept for F-C02-d). "
         "Histories interleave set / notify / read with executor steps (poll the k-th ready task, run to idle) and pause / "
-        "resume / dispose of effect owners. For small programs (2-3 effects, 2 writes) every schedule of up to 2 polls between "
+        "resume / dispose of effect owners and, in some cases, disposal of an arena signal / memo that effects read. For small programs (2-3 effects, 2 writes) every schedule of up to 2 polls between "
         "the operations is enumerated; beyond that schedules are seeded-random. Every case runs under a 4 s watchdog. "
         "Non-trivial = some effect ran at least twice; distinct = distinct case hash.")
 TRUSTED = [
